@@ -29,6 +29,10 @@ impl Prop for C01P {
         let b = bounds_for(ctx.tier, QUICK, THOROUGH);
         run_unit_generic(unit, ctx, &b, false);
     }
+    fn page_guard(&self, tier: Tier, profile: Profile) -> bool {
+        let _ = (tier, profile);
+        profile == Profile::Wrap || tier == Tier::Thorough
+    }
     fn rule(&self) -> String {
         "breadth-first search to fixpoint over canonical states (dims + rank-compressed cell labels) of a real TooDee<u32>; \
          initial states = every constructor call (default, with_capacity, new, init, from_vec, from_box; all dimension pairs and buffer lengths in the bound); \
